@@ -25,18 +25,27 @@ RULE = ('cases = reply body from an alphabet around the accepted form (True, "Tr
         '(form / JSON) x http / https x the check at depth 0-5 under and/or/not/rule: x policy name x URL placeholders x '
         'targets with nested values, secret-looking keys (with the debug logging of the library on or off) and opaque objects (top level; below the top level only the target-left-unmodified clause is judged). in the random stratum the content-type option may be changed on the living enforcer before a second request; B = the full body x status x content-type x scheme '
         'product at depth 0; R = random combinations. Non-trivial = the body is not exactly True / "True" (must deny) or a '
-        'fault is injected; distinct = distinct case. Stratum `overlap`: two requests reach two remote checks of one enforcer at the same time (second one runs at sampled line boundaries of the first, deterministic scheduler); the stub server answers True only to a self-consistent request, so anything leaking from one request into the other changes a decision.')
+        'fault is injected; distinct = distinct case. Stratum `overlap`: two requests reach two remote checks of one enforcer at the same time (second one runs at sampled line boundaries of the first, deterministic scheduler); the stub server answers True only to a self-consistent request, so anything leaking from one request into the other changes a decision. '
+        'Stratum S (fault sequences): 3-7 evaluations of one rule on ONE living enforcer; between the calls a configured client cert / key / CA '
+        'file is deleted or (re-)created, a remote_ssl_* option is pointed at another (present / missing) file or cleared, transport faults come '
+        'and go (ok, fault, ok ... and fault, ok, fault ...; enumerated for each file and each transport fault, plus random ones); every call is '
+        'judged by the same per-call oracle from the state of the world at that call alone: configured file missing now => RuntimeError and no '
+        'request, transport fault now => raises, otherwise one correct request and the decision by the body.')
 ASSUMPTIONS = ['bodies with unbalanced or repeated surrounding quotes ("True, True", ""True"") are driven and recorded but '
                'left unconstrained: "ignoring surrounding double quotes" can be read either way',
                'running as root, "file exists but unreadable" cannot be produced (os.access always succeeds): not simulated',
-               'opaque objects are generated at the top level of the target only']
+               'opaque objects are generated at the top level of the target only',
+               'in the sequence stratum remote_ssl_verify_server_crt stays True (whether a CA file that is configured but not used for '
+               'verification must exist is not said by the statement) and an option that is cleared is taken as "no file configured"']
 LEVEL_TEXT = ('The body/status/content-type/scheme product and every listed fault are enumerated completely at depth 0 and '
               'sampled at depth; the recorded request is checked on every call. Fault enumeration is the level: the property is '
               'about what happens for each reply and each transport failure.')
 LEVEL_NOTE = 'trusted: requests_mock as the transport; the request decoder in the harness'
 PLAN = {'quick': dict(shards=4, wall=70), 'thorough': dict(shards=16, wall=400)}
 MIN = {'overlapping_evaluations': 200, 'evaluations': 800, 'requests_recorded': 500, 'deny_bodies': 300, 'allow_bodies': 50, 'faults_injected': 100,
-       'tls_file_faults': 20, 'content_type_changes_on_living_enforcer': 100, 'requests_under_debug_logging': 200, 'nested_opaque_targets': 50}
+       'tls_file_faults': 20, 'content_type_changes_on_living_enforcer': 100, 'requests_under_debug_logging': 200, 'nested_opaque_targets': 50,
+       'sequence_calls': 400, 'sequence_tls_file_missing_after_a_sent_request': 60, 'sequence_clean_call_after_a_fault': 100,
+       'sequence_option_repoints': 40, 'sequence_tls_file_faults': 80, 'sequence_requests_recorded': 150}
 ANCHORS = ['oslo_policy._external:HttpCheck.__call__', 'oslo_policy._external:HttpsCheck.__call__',
            'oslo_policy._external:HttpCheck._construct_payload', 'oslo_policy.policy:Enforcer.enforce']
 REQUIRED_ANCHORS = ['oslo_policy._external:HttpCheck.__call__', 'oslo_policy._external:HttpsCheck.__call__']
@@ -145,6 +154,90 @@ def snapshot(x):
     return ('obj', id(x))
 
 
+def judge_call(ctx, case, call, fault, tls_fault, got, exc, reqs, target, creds_sent, expected_url, ref, rules, roles,
+               pfx='', extra=None):
+    """The per-call oracle: what one evaluation of a rule with a remote check must have done, given the reply / fault that
+    was injected for it.  `case` is what gets reported (replayable), `call` carries the settings of this one call (content
+    type, policy name, body, status); in the one-call strata they are the same dict.  `pfx` keeps the counters of the
+    sequence stratum apart, `extra` is added to the detail of a report.  Returns True when a violation was reported."""
+    def D(d):
+        return dict(d, **extra) if extra else d
+    body = call['body']
+    bclass = classify_body(body)
+    # ---- faults ---------------------------------------------------------
+    if fault != 'none':
+        ctx.count(pfx + 'faults_injected')
+        if tls_fault:
+            ctx.count(pfx + 'tls_file_faults')
+            if not isinstance(exc, RuntimeError):
+                ctx.violation('tls-file-fault-not-RuntimeError', case, D({'fault': fault, 'observed': repr(exc) if exc else repr(got)}))
+                return True
+            elif reqs:
+                ctx.violation('request-sent-despite-missing-tls-file', case, D({'fault': fault, 'requests': len(reqs)}))
+                return True
+            return False
+        if exc is None:
+            ctx.violation('transport-fault-does-not-raise', case, D({'fault': fault, 'observed_decision': repr(got)}))
+            return True
+        elif fault in ('ConnectTimeout', 'ReadTimeout') and not isinstance(exc, RuntimeError):
+            ctx.violation('timeout-not-RuntimeError', case, D({'fault': fault, 'observed': type(exc).__name__}))
+            return True
+        return False
+    if exc is not None:
+        ctx.violation('remote-check-raises-without-fault', case, D({'observed': '%s: %s' % (type(exc).__name__, str(exc)[:100])}))
+        return True
+    # ---- the request ------------------------------------------------------
+    if len(reqs) != 1:
+        ctx.violation('unexpected-number-of-requests', case, D({'requests': len(reqs)}))
+        return True
+    ctx.count(pfx + 'requests_recorded')
+    req = reqs[0]
+    if req.url != requests.Request('POST', expected_url).prepare().url:
+        ctx.violation('request-to-wrong-url', case, D({'expected': expected_url, 'observed': req.url}))
+        return True
+    try:
+        if call['ctype'] == 'application/json':
+            sent = json.loads(req.body if isinstance(req.body, str) else req.body.decode())
+            enc_ok = 'application/json' in req.headers.get('Content-Type', '')
+        else:
+            q = urllib.parse.parse_qs(req.body if isinstance(req.body, str) else req.body.decode(), keep_blank_values=True)
+            sent = {k: json.loads(v[0]) for k, v in q.items()}
+            enc_ok = 'application/x-www-form-urlencoded' in req.headers.get('Content-Type', '')
+    except Exception as e:
+        ctx.violation('request-not-decodable', case, D({'error': type(e).__name__, 'body': repr(req.body)[:200]}))
+        return True
+    if not enc_ok:
+        ctx.violation('request-in-wrong-encoding', case, D({'configured': call['ctype'], 'content_type': req.headers.get('Content-Type')}))
+        return True
+    want_target = json.loads(json.dumps({k: ({} if type(v) is object else v) for k, v in target.items()}))
+    want_creds = dict(creds_sent)
+    problems = {}
+    if sent.get('rule') != call['name']:
+        problems['rule'] = [sent.get('rule'), call['name']]
+    if sent.get('target') != want_target:
+        problems['target'] = [sent.get('target'), want_target]
+    sc = dict(sent.get('credentials') or {})
+    if sc != want_creds:
+        problems['credentials'] = [sent.get('credentials'), want_creds]
+    if problems or set(sent) != {'rule', 'target', 'credentials'}:
+        key = 'request-carries-wrong-rule-name' if 'rule' in problems else 'request-payload-wrong'
+        ctx.violation(key, case, D({'sent_vs_expected': problems, 'fields': sorted(sent)}))
+        return True
+    # ---- the decision -----------------------------------------------------
+    if bclass == 'open':
+        ctx.unconstrained('unbalanced-or-repeated-quotes')
+        return False
+    ctx.count(pfx + ('allow_bodies' if bclass == 'allow' else 'deny_bodies'))
+    want = ref(bclass == 'allow', roles)
+    if bool(got) != want:
+        leaf_expected = bclass == 'allow'
+        key = 'non-True-body-allows' if not leaf_expected else 'True-body-denies'
+        ctx.violation(key, case, D({'body': body[:60], 'status': call['status'], 'rule': rules[call['name']],
+                                    'expected': want, 'observed': got}))
+        return True
+    return False
+
+
 def check_case(ctx, case):
     from oslo_policy import policy
     tmpdir = None
@@ -231,76 +324,193 @@ def check_case(ctx, case):
             ctx.unconstrained('opaque-object-below-top-level')
             ctx.count('nested_opaque_targets')
             return
-        # ---- faults ---------------------------------------------------------
-        if fault != 'none':
-            ctx.count('faults_injected')
-            if tls_fault:
-                ctx.count('tls_file_faults')
-                if not isinstance(exc, RuntimeError):
-                    ctx.violation('tls-file-fault-not-RuntimeError', case, {'fault': fault, 'observed': repr(exc) if exc else repr(got)})
-                elif reqs:
-                    ctx.violation('request-sent-despite-missing-tls-file', case, {'fault': fault, 'requests': len(reqs)})
-                return
-            if exc is None:
-                ctx.violation('transport-fault-does-not-raise', case, {'fault': fault, 'observed_decision': repr(got)})
-            elif fault in ('ConnectTimeout', 'ReadTimeout') and not isinstance(exc, RuntimeError):
-                ctx.violation('timeout-not-RuntimeError', case, {'fault': fault, 'observed': type(exc).__name__})
-            return
-        if exc is not None:
-            ctx.violation('remote-check-raises-without-fault', case, {'observed': '%s: %s' % (type(exc).__name__, str(exc)[:100])})
-            return
-        # ---- the request ------------------------------------------------------
-        if len(reqs) != 1:
-            ctx.violation('unexpected-number-of-requests', case, {'requests': len(reqs)})
-            return
-        ctx.count('requests_recorded')
-        req = reqs[0]
-        if req.url != requests.Request('POST', expected_url).prepare().url:
-            ctx.violation('request-to-wrong-url', case, {'expected': expected_url, 'observed': req.url})
-            return
-        try:
-            if case['ctype'] == 'application/json':
-                sent = json.loads(req.body if isinstance(req.body, str) else req.body.decode())
-                enc_ok = 'application/json' in req.headers.get('Content-Type', '')
-            else:
-                q = urllib.parse.parse_qs(req.body if isinstance(req.body, str) else req.body.decode(), keep_blank_values=True)
-                sent = {k: json.loads(v[0]) for k, v in q.items()}
-                enc_ok = 'application/x-www-form-urlencoded' in req.headers.get('Content-Type', '')
-        except Exception as e:
-            ctx.violation('request-not-decodable', case, {'error': type(e).__name__, 'body': repr(req.body)[:200]})
-            return
-        if not enc_ok:
-            ctx.violation('request-in-wrong-encoding', case, {'configured': case['ctype'], 'content_type': req.headers.get('Content-Type')})
-            return
-        want_target = json.loads(json.dumps({k: ({} if type(v) is object else v) for k, v in target.items()}))
-        want_creds = dict(creds_sent)
-        problems = {}
-        if sent.get('rule') != case['name']:
-            problems['rule'] = [sent.get('rule'), case['name']]
-        if sent.get('target') != want_target:
-            problems['target'] = [sent.get('target'), want_target]
-        sc = dict(sent.get('credentials') or {})
-        if sc != want_creds:
-            problems['credentials'] = [sent.get('credentials'), want_creds]
-        if problems or set(sent) != {'rule', 'target', 'credentials'}:
-            key = 'request-carries-wrong-rule-name' if 'rule' in problems else 'request-payload-wrong'
-            ctx.violation(key, case, {'sent_vs_expected': problems, 'fields': sorted(sent)})
-            return
-        # ---- the decision -----------------------------------------------------
-        if bclass == 'open':
-            ctx.unconstrained('unbalanced-or-repeated-quotes')
-            return
-        ctx.count('allow_bodies' if bclass == 'allow' else 'deny_bodies')
-        want = ref(bclass == 'allow', roles)
-        if bool(got) != want:
-            leaf_expected = bclass == 'allow'
-            key = 'non-True-body-allows' if not leaf_expected else 'True-body-denies'
-            ctx.violation(key, case, {'body': body[:60], 'status': case['status'], 'rule': rules[case['name']],
-                                      'expected': want, 'observed': got})
+        # ---- faults, the request, the decision: the per-call oracle -------------
+        judge_call(ctx, case, case, fault=fault, tls_fault=tls_fault, got=got, exc=exc, reqs=reqs, target=target,
+                   creds_sent=creds_sent, expected_url=expected_url, ref=ref, rules=rules, roles=roles)
     finally:
         if tmpdir:
             import shutil
             shutil.rmtree(tmpdir, ignore_errors=True)
+
+
+# ---- fault SEQUENCES on one living enforcer ----------------------------------------------------------------------
+# The statement's quantifier is over fault sequences: the TLS-file and transport faults must be honoured on every call, whatever the
+# same enforcer saw before (a file that was there at the previous call may be gone now, and back at the next one).
+TLS_ROLES = ('cert', 'key', 'ca')
+TLS_OPTS = {'cert': 'remote_ssl_client_crt_file', 'key': 'remote_ssl_client_key_file', 'ca': 'remote_ssl_ca_crt_file'}
+TLS_FILES = ('cert', 'cert2', 'key', 'key2', 'ca', 'ca2')       # two candidate files per option
+TRANSPORT = ('ConnectTimeout', 'ReadTimeout', 'ConnectionError', 'SSLError')
+SEQS = {'quick': 240, 'thorough': 6000}
+SEQ_WRAPS = ([], ['not'], ['alias', 'or-role'])
+
+
+def seq_step(files, opts, fault='none', body='True', status=200):
+    """One call of a sequence: the TLS files that exist when it is made, the file each option points at (None = option not
+    set), the transport fault injected for it (or none) and the reply."""
+    return dict(files=sorted(files), opts=dict(opts), fault=fault, body=body, status=status)
+
+
+def check_sequence(ctx, case):
+    """Several evaluations of one rule on ONE enforcer; between them TLS files are deleted / created, the remote_ssl_* options
+    are pointed at other files, transport faults come and go.  Every call is judged by the per-call oracle (judge_call) from
+    the state of the world at that call alone."""
+    import shutil
+    from oslo_policy import policy
+    tmpdir = tempfile.mkdtemp(prefix='pvtls-')
+    paths = {nm: os.path.join(tmpdir, nm + '.pem') for nm in TLS_FILES}
+    try:
+        conf = env.fresh_conf(remote_content_type=case['ctype'], remote_ssl_verify_server_crt=True)
+        enf = policy.Enforcer(conf, use_conf=False)
+        rules, ref = build_rules(case)
+        enf.set_rules(policy.Rules.from_dict(rules))
+        roles = case['roles']
+        ctx.case(case, nontrivial=True, stratum='S')
+        cur = {r: None for r in TLS_ROLES}      # what the options point at now (None: never set / cleared)
+        history = []
+        sent_before = False                     # an earlier call of this enforcer got as far as sending its request
+        faulted_before = False
+        prev_opts = None
+        for k, step in enumerate(case['steps']):
+            # -- the world at this call
+            for nm in TLS_FILES:
+                if nm in step['files'] and not os.path.exists(paths[nm]):
+                    with open(paths[nm], 'w') as f:
+                        f.write('x')
+                elif nm not in step['files'] and os.path.exists(paths[nm]):
+                    os.unlink(paths[nm])
+            for r in TLS_ROLES:
+                want = step['opts'].get(r)
+                if want != cur[r]:
+                    if want is None:
+                        conf.clear_override(TLS_OPTS[r], group='oslo_policy')
+                    else:
+                        conf.set_override(TLS_OPTS[r], paths[want], group='oslo_policy')
+                    cur[r] = want
+            if prev_opts is not None and prev_opts != cur:
+                ctx.count('sequence_option_repoints')
+            prev_opts = dict(cur)
+            missing = [r for r in TLS_ROLES if cur[r] is not None and cur[r] not in step['files']]
+            if case['scheme'] == 'https' and missing:
+                fault, tls_fault = 'no-' + missing[0], True      # no request may be sent, so a transport fault cannot show
+            else:
+                fault, tls_fault = step['fault'], False
+            # -- the call
+            objs = []
+            target = make_target(case, objs)
+            snap0 = snapshot(target)
+            creds = {'roles': list(roles), 'user_id': 'u1', 'project_id': 'p', 'nested': {'a': [1, 2]}}
+            creds_sent = json.loads(json.dumps(creds))
+            expected_url = (case['scheme'] + '://srv' + case['path']) % target
+            with requests_mock.Mocker() as m:
+                kw = {}
+                if fault in TRANSPORT:
+                    kw['exc'] = getattr(requests.exceptions, fault)
+                else:
+                    kw['content'] = body_bytes(step['body'])
+                    kw['status_code'] = step['status']
+                    if not step['body'].startswith('BYTES'):
+                        kw['headers'] = {'Content-Type': 'text/plain; charset=utf-8'}
+                m.post(requests_mock.ANY, **kw)
+                try:
+                    got = enf.enforce(case['name'], target, creds)
+                    exc = None
+                except Exception as e:
+                    got, exc = None, e
+                reqs = list(m.request_history)
+            ctx.count('sequence_calls')
+            if tls_fault and sent_before:
+                ctx.count('sequence_tls_file_missing_after_a_sent_request')
+            if fault == 'none' and faulted_before:
+                ctx.count('sequence_clean_call_after_a_fault')
+            history.append('%s->%s' % ('tls' if tls_fault else 'transport' if fault != 'none' else classify_body(step['body']),
+                                       type(exc).__name__ if exc else bool(got)))
+            extra = {'call_index': k, 'call': step, 'history': list(history)}
+            if snapshot(target) != snap0:
+                ctx.violation('callers-target-modified', case, dict(extra, target_after=repr(target)[:300]))
+                return
+            call = dict(ctype=case['ctype'], name=case['name'], body=step['body'], status=step['status'])
+            if judge_call(ctx, case, call, fault=fault, tls_fault=tls_fault, got=got, exc=exc, reqs=reqs, target=target,
+                          creds_sent=creds_sent, expected_url=expected_url, ref=ref, rules=rules, roles=roles,
+                          pfx='sequence_', extra=extra):
+                return
+            sent_before = sent_before or bool(reqs)
+            faulted_before = faulted_before or fault != 'none'
+        ctx.observe('sequence_outcomes', ' '.join(h.split('->')[0] for h in history)[:80])
+    finally:
+        shutil.rmtree(tmpdir, ignore_errors=True)
+
+
+def seq_case(steps, **kw):
+    c = dict(seq=True, s='S', ctype=CTYPES[0], scheme='https', wraps=[], name='svc:act', path='/%(name)s/check', roles=['a'],
+             opaque=True, steps=steps)
+    c.update(kw)
+    return c
+
+
+def enumerated_sequences():
+    """(ok, fault, ok ...) and (fault, ok, fault ...) for each TLS file and each transport fault, by deleting / creating the
+    file and by pointing the option at another file."""
+    o0 = {'cert': 'cert', 'key': 'key', 'ca': 'ca'}
+    full = set(TLS_ROLES)
+    out = []
+    for v in TLS_ROLES:
+        alt = v + '2'
+        gone = full - {v}
+        oalt = dict(o0, **{v: alt})
+        onone = dict(o0, **{v: None})
+        # the file vanishes after a success, comes back, vanishes again
+        out.append(seq_case([seq_step(full, o0), seq_step(gone, o0), seq_step(full, o0), seq_step(gone, o0, body='"True"'),
+                             seq_step(full, o0, body='false')]))
+        # missing first, then created, then gone again
+        out.append(seq_case([seq_step(gone, o0), seq_step(full, o0, body='"True"'), seq_step(gone, o0), seq_step(full, o0)]))
+        # the option is pointed at another file (missing, then present, then deleted) and back
+        out.append(seq_case([seq_step(full, o0), seq_step(full, oalt), seq_step(full, o0), seq_step(full | {alt}, oalt),
+                             seq_step(full, oalt), seq_step(full, o0)]))
+        out.append(seq_case([seq_step(full, oalt), seq_step(full, o0), seq_step(gone | {alt}, o0), seq_step(gone | {alt}, oalt),
+                             seq_step(gone, oalt, body='True'), seq_step(full | {alt}, oalt, body='true')]))
+        # the option is cleared while its file is missing (nothing configured, nothing to miss) and set again
+        out.append(seq_case([seq_step(full, o0), seq_step(gone, o0), seq_step(gone, onone), seq_step(gone, o0), seq_step(full, o0)]))
+    for i, tf in enumerate(TRANSPORT):
+        v = TLS_ROLES[i % 3]
+        gone = full - {v}
+        for scheme in ('http', 'https'):
+            out.append(seq_case([seq_step(full, o0), seq_step(full, o0, fault=tf), seq_step(full, o0), seq_step(full, o0, fault=tf),
+                                 seq_step(full, o0, body='true')], scheme=scheme))
+        out.append(seq_case([seq_step(full, o0), seq_step(full, o0, fault=tf), seq_step(gone, o0, fault=tf), seq_step(gone, o0),
+                             seq_step(full, o0), seq_step(full, o0, fault=tf)]))
+        # the TLS files mean nothing to an http: check
+        out.append(seq_case([seq_step(full, o0), seq_step(gone, o0), seq_step(gone, o0, fault=tf), seq_step(set(), o0, body='"True"')],
+                            scheme='http'))
+    return out
+
+
+def gen_sequence(rnd):
+    files = set(nm for nm in TLS_FILES if rnd.random() < (0.85 if nm in TLS_ROLES else 0.5))
+    opts = {r: r for r in TLS_ROLES}
+    if rnd.random() < 0.2:
+        r = rnd.choice(TLS_ROLES)
+        opts[r] = rnd.choice([r + '2', None])
+    steps = []
+    for k in range(rnd.randint(3, 7)):
+        if k:
+            missing = [opts[r] for r in TLS_ROLES if opts[r] is not None and opts[r] not in files]
+            ev = rnd.random()
+            if missing and ev < 0.4:
+                files.add(rnd.choice(missing))                          # the file is (re-)created
+            elif ev < 0.65:
+                r = rnd.choice(TLS_ROLES)                               # a configured file vanishes / appears
+                files.symmetric_difference_update({opts[r] or r})
+            elif ev < 0.8:
+                r = rnd.choice(TLS_ROLES)                               # the option is pointed elsewhere
+                opts[r] = rnd.choice([r, r + '2', r + '2', None])
+            elif ev < 0.88:
+                files.symmetric_difference_update({rnd.choice(TLS_FILES)})
+        steps.append(seq_step(files, opts, fault=rnd.choice(['none'] * 5 + list(TRANSPORT)),
+                              body=rnd.choice(['True', 'True', '"True"', rnd.choice(BODIES)]), status=rnd.choice(STATUS)))
+    return seq_case(steps, ctype=rnd.choice(CTYPES), scheme=rnd.choice(['https', 'https', 'https', 'http']),
+                    wraps=[rnd.choice(WRAPS) for _ in range(rnd.randint(0, 4))], name=rnd.choice(NAMES),
+                    path=rnd.choice(['/%(name)s/check', '/check', '/v1/%(id)s?x=%(flag)s', ':8080/p']),
+                    roles=[r for r in 'ab' if rnd.random() < 0.5], opaque=rnd.random() < 0.5)
 
 
 OVERLAPS = {'quick': 10, 'thorough': 150}
@@ -426,6 +636,19 @@ def run(ctx):
                         check_case(ctx, base_case(s='F', fault=fault, ctype=ctype, scheme=scheme, wraps=wraps, roles=['a', 'b']))
     ctx.stratum('B', exhaustive=done)
     ctx.stratum('F', exhaustive=True)
+    # fault sequences on one living enforcer: the enumerated ones
+    for sc in enumerated_sequences():
+        for ctype in CTYPES:
+            for wraps in SEQ_WRAPS:
+                idx += 1
+                if not ctx.mine(idx):
+                    continue
+                if ctx.expired():
+                    break
+                case = dict(sc, ctype=ctype, wraps=list(wraps), roles=['a', 'b'] if wraps else ['a'])
+                check_sequence(ctx, case)
+                if idx % 40 == 0:
+                    ctx.sample(case, 'S')
     rnd = ctx.rnd
     for i in range(N[ctx.tier] // ctx.nshards + 1):
         if ctx.expired():
@@ -441,6 +664,13 @@ def run(ctx):
         if i % 150 == 0:
             ctx.sample(case, 'R')
     ctx.stratum('R', exhaustive=False)
+    # fault sequences on one living enforcer: random ones
+    srnd = ctx.sub_rnd('S', ctx.tier, ctx.shard)
+    for i in range(SEQS[ctx.tier] // ctx.nshards + 1):
+        if ctx.expired():
+            break
+        check_sequence(ctx, gen_sequence(srnd))
+    ctx.stratum('S', exhaustive=False)
     # two overlapping requests, last (the line-level scheduler slows everything that runs after it is installed)
     from pv.mon import sched
     ctx.stratum('overlap', exhaustive=False)
@@ -456,4 +686,6 @@ def run(ctx):
 def replay(ctx, case):
     if case.get('overlap'):
         return check_overlap(ctx, case)
+    if case.get('seq'):
+        return check_sequence(ctx, case)
     check_case(ctx, case)
